@@ -837,7 +837,8 @@ impl Property for C17 {
                 let filt = |ls: &Vec<String>| -> Vec<String> {
                     ls.iter().filter(|l| ratio_ok || !(l.starts_with("RER") || l.starts_with("Porcentaje"))).filter(|l| !l.starts_with("Porcentaje")).cloned().collect()
                 };
-                let ratio_extra = if ratio_ok { crate::cmp::C_RATIO * EPS * sc.e_an * f / den.abs() } else { 0.0 };
+                let rmax = [r0.json.get("rer"), r0.json.get("rer_nrb"), ri.json.get("rer"), ri.json.get("rer_nrb")].iter().filter_map(|v| v.and_then(|x| x.as_f64())).fold(0.0f64, |m, v| m.max(v.abs()));
+                let ratio_extra = if ratio_ok { crate::cmp::ratio_tol(sc.e_an * f, den.abs(), rmax, 0.0) } else { 0.0 };
                 if let Some(m) = compare_reports(&filt(&r0.plain), &filt(&ri.plain), 1.0, (noise / area).max(ratio_extra), 0.0) {
                     violation = Some(Violation::new(
                         "output_varies_between_runs",
